@@ -173,7 +173,36 @@ def run(prog, chk):
         chk.ob("R6.open-state-guard", f.qual, guarded, f.loc,
                "emits %s %s" % (sorted(kinds), "behind an open-state test" if guarded else "with no closed/eof_sent test (can follow CLOSE)"))
     chk.floor("R6", "public emitting methods", n6, 10)
+    # the decorator itself, evaluated over all 16 states of (closed, eof_received, eof_sent, active): the wrapped method
+    # runs iff the channel is active and none of the three shut flags is set, otherwise SSHException
+    import itertools
+    from ..core.interp import Interp, Obj, Refuse
     oo = prog.func("channel.open_only")
-    t = unparse(oo.node)
-    chk.ob("R6.open-only-decorator", "open_only", all(x in t for x in ("self.closed", "self.eof_sent", "self.eof_received", "not self.active")) and "raise SSHException" in t,
-           oo.loc, "raises unless open")
+    inner = [n for n in oo.node.body if isinstance(n, ast.FunctionDef)]
+    if len(inner) != 1:
+        raise AnalysisError("channel.open_only", "expected one wrapper function")
+    wp = inner[0]
+    a = wp.args
+    bad = None
+    for closed, eofr, eofs, active in itertools.product((False, True), repeat=4):
+        ran = []
+
+        def wrapped(*x, ran=ran, **k):
+            ran.append(1)
+            return "RESULT"
+        env = {a.args[0].arg: Obj(closed=closed, eof_received=eofr, eof_sent=eofs, active=active)}
+        if a.vararg:
+            env[a.vararg.arg] = ()
+        if a.kwarg:
+            env[a.kwarg.arg] = {}
+        it = Interp(intrinsics={oo.params()[0]: wrapped, "all": all, "any": any}, arith=False)
+        try:
+            kind, val = it.call_function(wp, env)
+        except Refuse as e:
+            raise AnalysisError("channel.open_only", "wrapper not evaluable: %s" % (e,))
+        is_open = active and not (closed or eofr or eofs)
+        good = (kind == "return" and val == "RESULT" and ran) if is_open else (kind == "raise" and val == "SSHException" and not ran)
+        if not good and bad is None:
+            bad = "closed=%s eof_received=%s eof_sent=%s active=%s: %s %r%s" % (closed, eofr, eofs, active, kind, val, " (method ran)" if ran else "")
+    chk.ob("R6.open-only-decorator", "open_only", bad is None, oo.loc,
+           "16 channel states evaluated: the method runs iff active and not closed / eof_received / eof_sent%s" % ("" if bad is None else "; first failing: " + bad))
